@@ -76,6 +76,11 @@ CLAIMS["C14"] = dict(
   text="Decides on /repo's current tree: the Offset conversion's FixedOffset is east_opt's Some value with None turned into an error (no unwrap, no truncating cast); to_duration builds chrono Durations only behind the unit-is-seconds and magnitude tests and from to_int()'s Some value; instant +- duration uses checked_add_signed/checked_sub_signed fed by to_duration(..)? with None mapped to an error and no unchecked DateTime+-Duration operator exists in rink_core; re-zoning only delegates to DateTime::with_timezone and the reply is built from the re-zoned value; every keyword of datepatterns.txt has a parse_date arm and the ten numeric keywords have the documented digit counts and ranges; the scale constants of to_duration (10^3, then 10^6 for the sub-millisecond remainder) and from_duration (10^3, 10^9) are consistent; both numeric offset spellings compute sign*(h*3600+m*60). The round-trip laws themselves and the Gregorian calendar are chrono's behaviour and values, not decided.",
   note="Trusted: chrono's documented contracts (with_timezone preserves the instant, checked_* return None on overflow), the keyword range table in rules/c14.py.",
   design_ref="DESIGN.md section 4, C14")
+CLAIMS["C06"] = dict(
+  technique="table agreement (HIR literals of prettify vs exact folding of definitions.units), reference-tree check of prettify's value arithmetic (def-use over MIR access paths), provenance def-use of NumberParts fields, K4 for the printed factor, sibling check of merge closures",
+  text="Decides on /repo's current tree the structural conditions under which readability choices cannot change the quantity: prettify's hard-wired special cases agree with the database (kilogram = 1000 gram, byte = 8 bit, tonne = mega gram, sixteen prefixes = 10^(+-3k) tiling by 1000); every arithmetic tree applied to the value in prettify is one of the reference scalings, each raised to the unit's own exponent with name and divisor from the same prefix entry, and every displayed exponent is the unit's own; dimensions/quantity come from the result's own unit; factor/divfactor are numerator/denominator of one constant and the unit is the target's own name map; the printed factor of a conversion target is computed without any float-introducing site; fast_decompose stores the exponent it divided by under the paired name; all unit-map merges add exponents and drop zeros. Equality of numeral x factor x unit with the quantity for every magnitude is a statement about values and is not claimed.",
+  note="Trusted: the reference-tree table in rules/c06.py (a new, correct special case needs a table line), the data-file folder, driver.",
+  design_ref="DESIGN.md section 4, C06")
 NA = {
  "C05": "digit strings, recurring-block offsets and the 1-ulp truncation bound are number-theoretic facts about runtime values of p/q and the base; no structural clause is a genuine necessary condition (DESIGN.md section 4, C05)",
 }
